@@ -663,6 +663,16 @@ class Host:
     @passthrough
     def meth(self, a: int, b: float = 1.5):
         return ("meth", a, b)
+
+class Audited:
+    # the constructor itself sits behind a functools.wraps pass-through decorator
+    @passthrough
+    def __init__(self, a: int, b: float = 1.5):
+        self.args = ("audited", a, b)
+
+def vt(a: int, *rest: tuple[int, ...], **kw: list[int]):
+    # every surplus positional argument binds to `rest`, whose annotation is a variadic tuple: each one is converted to a tuple of ints
+    return ("vt", a, rest, kw)
 """
 
 
@@ -681,6 +691,11 @@ def special_decorated(res):
             ("deco2", m.deco2, (("1",), {}), ("deco2", 1, 0.5)),
             ("meth", h.meth, (("1", "2"), {}), ("meth", 1, 2.0)),
             ("meth", h.meth, (("1",), {"b": "2"}), ("meth", 1, 2.0)),
+            ("Audited", m.Audited, (("1", "2"), {}), ("audited", 1, 2.0)),
+            ("Audited", m.Audited, (("1",), {"b": "2"}), ("audited", 1, 2.0)),
+            ("vt", m.vt, (("1", ["2", "3"], "[4, 5]"), {"k": "[6]"}), ("vt", 1, ((2, 3), (4, 5)), {"k": [6]})),
+            ("vt", m.vt, (("1", ("7",)), {}), ("vt", 1, ((7,),), {})),
+            ("vt", m.vt, (("1",), {}), ("vt", 1, (), {})),
         ]
         for api in ("bind", "wrap"):
             for name, target, (a, k), exp in table:
@@ -690,6 +705,8 @@ def special_decorated(res):
                 res.hit(f"special:decorated:{api}:{name}")
                 b = gcall(getattr(typelib.binding, api), target)
                 out = gcall(b.val, *a, **k) if b.ok else b
+                if out.ok and name == "Audited":
+                    out = gcall(lambda: out.val.args)
                 key = h64("deco", api, name, repr(a), repr(k), out.ok, repr(out.val) if out.ok else out.excname)
                 res.outcomes.add(key)
                 if out.ok:
